@@ -244,6 +244,7 @@ func run(cfgPath string) int {
 	exit := 0
 	inconclusive := false
 	var violations []reportedViolation
+	var traceSamples []traceSample
 	knownSeen := map[string]*interp.Violation{}
 	for _, ent := range cfg.Entries {
 		if *onlyEntry != "" && ent.Name != *onlyEntry {
@@ -335,6 +336,25 @@ func run(cfgPath string) int {
 		for k := range ex.Violations {
 			violations = append(violations, reportedViolation{Entry: ent.Name, V: &ex.Violations[k]})
 		}
+		for _, s := range ex.Samples {
+			if len(traceSamples) < 40 && s.Outcome == "ok" {
+				traceSamples = append(traceSamples, traceSample{Entry: ent.Name, Model: s.Model, Reached: s.Reached, Outcome: s.Outcome, Bounds: tc.Bounds})
+			}
+		}
+	}
+	// validate a sample of explored paths against the native implementation
+	if !*noReplay && cfg.Replay != nil && !cfg.Replay.Disabled && len(traceSamples) > 0 {
+		agree, diffs, err := nativeTraces(cfg, traceSamples)
+		if err != nil {
+			fmt.Fprintf(os.Stderr, "native trace validation failed to run: %v\n", err)
+			inconclusive = true
+		}
+		ev.Validated = agree
+		for _, d := range diffs {
+			fmt.Fprintf(os.Stderr, "ENCODING DISAGREEMENT (trace): %s\n", d)
+			inconclusive = true
+		}
+		fmt.Fprintf(os.Stderr, "native trace validation: %d of %d sampled paths agree\n", agree, len(traceSamples))
 	}
 	// known findings: print one line per listed finding that was witnessed
 	for _, k := range cfg.Known {
